@@ -23,7 +23,7 @@ Definition decode_dop (v : val) : option dop :=
   end.
 Definition decode_rcase (v : val) : option rcase :=
   match v with
-  | VList [ins; op; ss; ps; ft] =>
+  | VList (ins :: op :: ss :: ps :: ft :: _) =>        (* a sixth element says how the harness built the input converters; ignored *)
       match as_list_of as_records ins, decode_dop op, as_strs ss, as_list_of as_pair_str ps, as_list_of as_fold_entry ft with
       | Some ins', Some op', Some ss', Some ps', Some ft' =>
           Some {| rc_inputs := ins'; rc_op := op'; rc_strs := ss'; rc_pairs := ps'; rc_fold := ft' |}
@@ -272,7 +272,7 @@ Definition run_derive (prop : Z) (case obs : val) : val :=
    change, so the model's observation is "all equal, nothing shared"; the object-level statement is model/Heap.v. *)
 Definition run_inputs_unchanged (case obs : val) : val :=
   match case with
-  | VList [VList [ins; op; ss; ps; ft]; VInt nsteps; VInt is_discover; _] =>
+  | VList [VList (ins :: op :: ss :: ps :: ft :: _); VInt nsteps; VInt is_discover; _] =>
       match decode_rcase (VList [ins; op; ss; ps; ft]) with
       | None => VList [VInt (-1)]
       | Some k =>
